@@ -49,6 +49,8 @@ func Scenarios() []Scenario {
 			Threads: [][]ops.Op{{{K: "hopen", P: "/f", N: os.O_RDONLY, H: 0}, {K: "hreadall", H: 0}, {K: "hclose", H: 0}}, {{K: "hopen", P: "/g", N: os.O_RDONLY, H: 1}, {K: "hreadall", H: 1}, {K: "hclose", H: 1}}}},
 		{Name: "S13-two-readers-one-file-then-write", Cfg: c, Setup: []ops.Op{{K: "put", P: "/f", C: "T100"}},
 			Threads: [][]ops.Op{{{K: "hopen", P: "/f", N: os.O_RDONLY, H: 0}, {K: "hreadall", H: 0}, {K: "hclose", H: 0}, {K: "mkdir", P: "/d"}}, {{K: "hopen", P: "/f", N: os.O_RDONLY, H: 1}, {K: "hreadall", H: 1}, {K: "hclose", H: 1}}}},
+		{Name: "S14-seek-on-fresh-handle-vs-mkdir", Cfg: c, Setup: []ops.Op{{K: "put", P: "/f", C: "T100"}},
+			Threads: [][]ops.Op{{{K: "hopen", P: "/f", N: os.O_RDONLY, H: 0}, {K: "hseek", H: 0, N: 0}, {K: "hreadall", H: 0}, {K: "hclose", H: 0}}, {{K: "mkdir", P: "/d"}}}},
 		{Name: "S11-chown-vs-chtimes-vs-write", Cfg: c, Setup: []ops.Op{{K: "put", P: "/f", C: "x"}},
 			Threads: [][]ops.Op{{{K: "chown", P: "/f"}}, {{K: "chtimes", P: "/f"}}, {{K: "hopen", P: "/f", N: os.O_RDWR, H: 2}, {K: "hwrite", H: 2, C: "zz"}, {K: "hclose", H: 2}}}},
 	}
